@@ -28,7 +28,7 @@ func NewFeature(geometry Object, members string) *Feature {
 				members, _ = sjson.Delete(members, "feature")
 			}
 			g.extra = new(extra)
-			g.extra.members = string(pretty.UglyInPlace([]byte(members)))
+			g.extra.members = string(pretty.Ugly([]byte(members)))
 			if g.extra.members == "{}" {
 				// no members are left, such as with "{ }" or `{"feature":1}`
 				g.extra = nil
